@@ -21,6 +21,7 @@ func init() {
 			{"C14.client-status", "HTTP client: success only for 200(/201), absent only for 404, errors passed on; NoSuchObject->ChunkMissing only", 4, c14ClientStatus},
 			{"C14.server-status", "HTTP servers: 200 only if every lookup succeeded; failures answered >=400; 404 only for missing", 5, c14ServerStatus},
 			{"C14.retry-bounded", "retry loop bounded by ErrorRetry, retried only on errors/5xx, give-up never reports success", 4, c14Retry},
+			{"C14.retry-thresholds", "give up when attempt >= ErrorRetry; retry exactly the statuses 500..599 (partition points)", 3, c14RetryThresholds},
 			{"C14.retry-body-fresh", "the request body handed to the retry loop is created anew for every attempt", 3, c14RetryBody},
 			{"C14.protocol", "casync protocol client: MISSING->ChunkMissing, CHUNK->verified, else error", 3, c14Protocol},
 			{"C14.server-loop", "protocol server ends a session with nil only on GOODBYE/cancel; MISSING continues", 2, c14ServerLoop},
@@ -931,4 +932,19 @@ func retryBodyFresh(c *Ctx, want func(fnKey string) bool) {
 	if n == 0 {
 		c.bad("request-body", token.NoPos, "no request with a body function found")
 	}
+}
+
+// c14RetryThresholds (E-BOUND): the numeric thresholds of the retry loop.
+func c14RetryThresholds(c *Ctx) {
+	fn := c.mustFn("RemoteHTTPBase.IssueRetryableHttpRequest")
+	if fn == nil {
+		return
+	}
+	c.dumpPartitions()
+	status := "call:(*desync.RemoteHTTPBase).IssueHttpRequest#0"
+	attempt := "phi([1*phi([1*?*ssa.Phi]+1|[]+0)]+1|[]+0)"
+	c.boundaryRuleSets("RemoteHTTPBase.IssueRetryableHttpRequest", withClosures(fn), []boundarySpec{
+		{"budget", map[string]int{"StoreOptions.ErrorRetry": 1, attempt: -1}, 1, 1, "after the increment the loop gives up iff attempt >= ErrorRetry (at most max(1, ErrorRetry) requests)"},
+		{"5xx", map[string]int{status: 1}, 0, 2, "a status is retried iff 500 <= status < 600"},
+	}, map[string][]int64{"5xx": {499, 599}})
 }
